@@ -519,6 +519,29 @@ func doTyped(seedS, idxS string) outcome {
 			parts = append(parts, "panic")
 			continue
 		}
+		// the same typed document INSIDE a generic map, through the one-shot and the compiled path (twice): all three
+		// must agree with each other (a fast path of one route that knows only generic maps shows up here)
+		if e.nav || e.cmp {
+			wrapped := map[string]interface{}{"w": doc, "z": 1.0}
+			we := "w | " + e.typed
+			if strings.HasPrefix(e.typed, "\"") || (len(e.typed) > 0 && (e.typed[0] >= 'A' && e.typed[0] <= 'Z' || e.typed[0] >= 'a' && e.typed[0] <= 'z')) {
+				we = "w." + e.typed
+			}
+			one, _, _ := searchOutcome(we, wrapped)
+			var jp *jmespath.JMESPath
+			var cerr error
+			if cp, _ := safely(func() { jp, cerr = jmespath.Compile(we) }); !cp && cerr == nil && jp != nil {
+				for k := 0; k < 2; k++ {
+					var r2 interface{}
+					var e2 error
+					p2, _ := safely(func() { r2, e2 = jp.Search(wrapped) })
+					if got := searchBase(r2, e2, p2); got != one && !strings.Contains(e.typed, "*") {
+						o.flags = append(o.flags, "typedcompiled:"+hexField(we)+":oneshot="+truncate(one, 120)+":compiled="+truncate(got, 120))
+						break
+					}
+				}
+			}
+		}
 		if !e.nav && !e.cmp {
 			parts = append(parts, "nopanic")
 			continue
